@@ -114,6 +114,28 @@ func boundaryTokens() []string {
 	return c
 }
 
+// string literals with runs of 1..3 backslashes before a plain character, before an escaped quote,
+// before a line end, before a space and at the end of the string (there the last backslash escapes
+// the closing quote when the run is odd), plus the shapes of seeded/C04-w3-m1; used at every
+// position that holds a string literal. Backslash-backslash is outside the grammar of DESIGN 4.1
+// (a backslash is followed by a quote or a plain item), the parser must still agree with its model.
+func stringBoundaryTokens() []string {
+	var c []string
+	for n := 1; n <= 3; n++ {
+		bs := strings.Repeat(`\`, n)
+		c = append(c,
+			`"`+bs+`x"`,
+			`"a`+bs+`\" y"`,
+			`"a`+bs+`"`,
+			`"`+bs+"\n"+`z"`,
+			`"`+bs+` "`,
+			`"`+bs+`" tail"`,
+		)
+	}
+	c = append(c, `"dir C:\tmp\\" (quoted)"`, `"\\" x"`, `"\"\""`, "\"a\nb\r\nc\"", "\"\xc2\xb5\\\xc2\xb5\"", "\"a\x00b\"", "\"a\xffb\"")
+	return c
+}
+
 func renderToks(toks []string) string {
 	var b strings.Builder
 	for i, t := range toks {
@@ -129,6 +151,7 @@ func renderToks(toks []string) string {
 // triple and one in [stride] of the others (chosen by the seed). Returns the next case number.
 func emitTokenMutations(seed int64, n int, all bool, stride int) int {
 	cat := boundaryTokens()
+	strCat := stringBoundaryTokens()
 	ctr := uint64(seed)
 	for ti, tp := range tokTemplates {
 		clean := make([]string, len(tp.toks))
@@ -146,14 +169,23 @@ func emitTokenMutations(seed int64, n int, all bool, stride int) int {
 			}
 			muts := make([][]string, 0, len(cat)+2)
 			names := make([]string, 0, len(cat)+2)
-			for _, b := range cat {
+			here := cat
+			isString := strings.HasPrefix(clean[j], "\"")
+			if isString {
+				here = append(append([]string(nil), strCat...), cat...)
+			}
+			for bi, b := range here {
 				if b == clean[j] {
 					continue
 				}
 				m := append([]string(nil), clean...)
 				m[j] = b
 				muts = append(muts, m[:j+1:j+1], m[j+1:])
-				names = append(names, "r:"+hex.EncodeToString([]byte(b)))
+				if isString && bi < len(strCat) {
+					names = append(names, "s:"+hex.EncodeToString([]byte(b))) // always emitted
+				} else {
+					names = append(names, "r:"+hex.EncodeToString([]byte(b)))
+				}
 			}
 			del := append(append([]string(nil), clean[:j]...), clean[j+1:]...)
 			muts = append(muts, del[:j:j], del[j:])
@@ -164,7 +196,7 @@ func emitTokenMutations(seed int64, n int, all bool, stride int) int {
 			for k, name := range names {
 				ctr = ctr*6364136223846793005 + 1442695040888963407
 				h := int((ctr >> 33) % 1000003)
-				if !all && !mand[j] && h%stride != 0 {
+				if !all && !mand[j] && h%stride != 0 && !strings.HasPrefix(name, "s:") {
 					continue
 				}
 				head, tail := muts[2*k], muts[2*k+1]
